@@ -33,9 +33,11 @@ func runC10(c *core.Ctx) {
 	c.Rule("R8", "per-key counters initialised from the replication set that is iterated", 3)
 	c.Rule("R9", "DoBatch is a pure delegation to DoBatchWithOptions (no second batching path)", 1)
 	c.Rule("R10", "per-key decision table of batchTracker.record (immediate error on tolerance exceeded, error at the last replica, success at quorum)", 1)
+	c.Rule("R12", "the default error classifier sees through wrapped errors and is what DoBatch and defaulted options use", 2)
 	c.Rule("R11", "recordError stores every error and counts it in exactly one family", 1)
 	pkg := c.Prog.Pkg("ring")
 	defer c10Decision(c)
+	defer c10Classifier(c)
 	fn := an.FindFunc(pkg, "DoBatchWithOptions")
 	rec := an.FindFunc(pkg, "batchTracker.record")
 	if fn == nil || rec == nil {
@@ -614,4 +616,54 @@ func c10Decision(c *core.Ctx) {
 	default:
 		c.Hold("R10", "func=record:decision", rec.Pos(), fmt.Sprintf("decision table over error/no error × family count vs tolerance × successes vs quorum × last replica × single-winner atoms matches the property on %d rows", len(an.Rows(atoms))), len(an.Rows(atoms)))
 	}
+}
+
+// c10Classifier (R12): which error family a replica's error counts in decides whether the batch may
+// give up early. The default classifier hands the error only to grpcutil.ErrorToStatusCode — the
+// extraction that unwraps (errors.As) — and classifies on its result alone; it is the classifier that
+// DoBatch passes and that replaceZeroValuesWithDefaults installs when none is given.
+func c10Classifier(c *core.Ctx) {
+	pkg := c.Prog.Pkg("ring")
+	fn := an.FindFunc(pkg, "isHTTPStatus4xx")
+	if fn == nil {
+		c.Miss("R12", "func=isHTTPStatus4xx", "not found")
+		return
+	}
+	c.Analysed(fn.String())
+	var handed []string
+	ok := false
+	for _, call := range fn.Calls(true) {
+		uses := false
+		for _, a := range call.Expr.Args {
+			ast.Inspect(a, func(n ast.Node) bool {
+				if id, isID := n.(*ast.Ident); isID && fn.Canon(id) == "p0" {
+					uses = true
+				}
+				return true
+			})
+		}
+		if !uses {
+			continue
+		}
+		name := "?"
+		if f := call.Func(); f != nil && f.Pkg() != nil {
+			name = f.Pkg().Name() + "." + f.Name()
+		}
+		handed = append(handed, name)
+		if call.Is("grpcutil", "ErrorToStatusCode") && len(call.Expr.Args) == 1 && fn.Canon(call.Expr.Args[0]) == "p0" {
+			ok = true
+		}
+	}
+	c.Check(ok && len(handed) == 1, "R12", "func=isHTTPStatus4xx", fn.Pos(), fmt.Sprintf("the error is handed to %v only (must be grpcutil.ErrorToStatusCode, which unwraps; a status extraction that type-asserts the outermost error puts a wrapped 4xx into the server family)", handed), 1)
+	// installed as the default
+	okDef := false
+	if rz := an.FindFunc(pkg, "DoBatchOptions.replaceZeroValuesWithDefaults"); rz != nil {
+		rz.InspectShallow(func(n ast.Node) bool {
+			if as, isAs := n.(*ast.AssignStmt); isAs && len(as.Lhs) == 1 && rz.Canon(as.Lhs[0]) == "recv.IsClientError" && rz.Canon(as.Rhs[0]) == "isHTTPStatus4xx" {
+				okDef = true
+			}
+			return true
+		})
+	}
+	c.Check(okDef, "R12", "default:IsClientError", fn.Pos(), "replaceZeroValuesWithDefaults installs isHTTPStatus4xx when no classifier is given", 1)
 }
